@@ -76,7 +76,7 @@ def decode_index(tokens, single):
         if t == "...":
             out.append(Ellipsis)
         elif "i" in t:
-            out.append(int(t["i"]))
+            out.append(getattr(np, t["np"])(t["i"]) if t.get("np") else int(t["i"]))
         elif "s" in t:
             out.append(slice(*t["s"]))
         else:
@@ -158,6 +158,23 @@ class Harness:
                 setattr(e.ds, attr, getattr(other.ds, val["field"]))
             setattr(e, attr, list(getattr(other, val["field"])))
             self.flags["kinds"].add("set_from_other_dataset")
+            return
+        if attr in ("origin", "sampling") and isinstance(val, dict) and "col" in val:
+            # calibration given as an (n, k) nested list / array: flattened it has n*k entries, so it is legal
+            # exactly when n*k == ndim (e.g. an (ndim, 1) column such as M[:, [0]])
+            block = [[float(x)] * val["k"] for x in val["col"]]
+            arg = np.array(block) if val.get("as_array") else block
+            total = len(val["col"]) * val["k"]
+            try:
+                setattr(e.ds, attr, arg)
+                ok = True
+            except (ValueError, TypeError):
+                ok = False
+            if ok != (total == nd):
+                self.viol("setting %s of a %d-d dataset to a %dx%d block was %s" % (attr, nd, len(val["col"]), val["k"], "accepted" if ok else "rejected"))
+            if ok:
+                setattr(e, attr, [float(x) for row in block for x in row])
+            self.flags["kinds"].add("set_2d_block")
             return
         if attr in ("origin", "sampling"):
             v = np.array(val["a"]) if isinstance(val, dict) else val
@@ -442,7 +459,11 @@ def draw_index(draw, shape):
             kept += 1
             continue
         if kind == "i":
-            toks.append({"i": draw(st.integers(-n, n - 1))})
+            tok = {"i": draw(st.integers(-n, n - 1))}
+            npk = draw(st.sampled_from([None, None, "int64", "int32", "intp", "uint8"]))
+            if npk and not (npk == "uint8" and tok["i"] < 0):
+                tok["np"] = npk  # a NumPy integer scalar (np.argmax, np.unravel_index, iterating np.arange, ...)
+            toks.append(tok)
         else:
             stepv = draw(st.sampled_from([None, None, 1, 2, 3, -1, -2]))
             if stepv is not None and stepv < 0:
@@ -517,6 +538,12 @@ class DatasetMachine(RuleBasedStateMachine):
         if attr in ("origin", "sampling") and data.draw(st.integers(0, 3)) == 0:
             step = {"op": "set", "src": i, "attr": attr, "value": {"from": self._pick(data), "field": data.draw(st.sampled_from(["origin", "sampling"]))}}
             self.h.apply(step)
+            return
+        if attr in ("origin", "sampling") and data.draw(st.integers(0, 4)) == 0:
+            k = data.draw(st.sampled_from([1, 1, 1, 2]))
+            rows = nd if data.draw(st.integers(0, 3)) else max(1, nd - 1)
+            vals = [data.draw(st.sampled_from([0.25, 1.0, 2.0, -1.5, 4.0])) for _ in range(rows)]
+            self.h.apply({"op": "set", "src": i, "attr": attr, "value": {"col": vals, "k": k, "as_array": data.draw(st.booleans())}})
             return
         if attr in ("origin", "sampling"):
             form = data.draw(st.sampled_from(["scalar", "list", "array"]))
@@ -641,6 +668,8 @@ def alphabet():
     ip("res_last", lambda s, p: {"op": "resample", "in_place": p, "factors": [1.5], "axes": [len(s) - 1]} if abs(s[-1] * 1.5 - int(s[-1] * 1.5) - 0.5) > 0.05 else {"op": "resample", "in_place": p, "out_shape": [s[-1] + 1], "axes": [len(s) - 1]})
     ip("res_down", lambda s, p: {"op": "resample", "in_place": p, "out_shape": [max(1, n - 1) for n in s], "axes": None})
     A["idx0"] = lambda s: {"op": "index", "index": [{"i": 0}], "single": True} if len(s) >= 2 else None
+    A["idx_np_int"] = lambda s: {"op": "index", "index": [{"s": [None, None, None]}, {"i": 0, "np": "int64"}], "single": False} if len(s) >= 2 else None
+    A["set_origin_column"] = lambda shape: {"op": "set", "attr": "origin", "value": {"col": [1.0 + k for k in range(len(shape))], "k": 1, "as_array": True}}
     A["idx_ell_step"] = lambda s: {"op": "index", "index": ["...", {"s": [None, None, 2]}], "single": False}
     A["idx_tail"] = lambda s: {"op": "index", "index": [{"s": [1, None, None]}], "single": True} if s[0] >= 2 else None
     A["idx_rev"] = lambda s: {"op": "index", "index": [{"s": [None, None, -1]}, "..."], "single": False}
